@@ -29,7 +29,12 @@ type c01b struct{}
 
 func (*c01b) UsesModel() bool { return true }
 
-type chunkReader struct{ chunks [][]byte }
+type chunkReader struct {
+	chunks [][]byte
+	// eofWithLast: the last chunk is delivered together with io.EOF, as io.Reader allows and as net/http's bodies of
+	// known length do (lines "re …")
+	eofWithLast bool
+}
 
 func (r *chunkReader) Read(p []byte) (int, error) {
 	for len(r.chunks) > 0 && len(r.chunks[0]) == 0 {
@@ -46,6 +51,9 @@ func (r *chunkReader) Read(p []byte) (int, error) {
 	if len(r.chunks[0]) == 0 {
 		r.chunks = r.chunks[1:]
 	}
+	if r.eofWithLast && len(r.chunks) == 0 {
+		return n, io.EOF
+	}
 	return n, nil
 }
 func (r *chunkReader) Close() error { return nil }
@@ -56,6 +64,7 @@ type chunkTransport struct {
 	chunks [][]byte
 	status int
 	crange string
+	eofWithLast bool
 	// adaptive: answer 206 with the full Content-Range when the request carries a Range header, 200 otherwise
 	adaptive bool
 }
@@ -81,7 +90,7 @@ func (t *chunkTransport) RoundTrip(req *http.Request) (*http.Response, error) {
 		h.Set("Content-Range", t.crange)
 	}
 	return &http.Response{StatusCode: t.status, Status: strconv.Itoa(t.status), Proto: "HTTP/1.1", ProtoMajor: 1, ProtoMinor: 1,
-		Header: h, Request: req, ContentLength: t.size, Body: &chunkReader{chunks: t.chunks}}, nil
+		Header: h, Request: req, ContentLength: t.size, Body: &chunkReader{chunks: t.chunks, eofWithLast: t.eofWithLast}}, nil
 }
 
 func (*c01b) Impl(c Case) []string {
@@ -89,12 +98,12 @@ func (*c01b) Impl(c Case) []string {
 	for i, l := range c.Lines {
 		out[i] = guard(func() string {
 			t := strings.Split(l, " ")
-			if len(t) < 4 || (t[0] != "rd" && t[0] != "rq") {
+			if len(t) < 4 || (t[0] != "rd" && t[0] != "rq" && t[0] != "re") {
 				return "bad-op"
 			}
 			size, _ := strconv.ParseInt(t[2], 10, 64)
 			dg, _ := untok(t[3])
-			tr := &chunkTransport{size: size, digest: dg, status: 200}
+			tr := &chunkTransport{size: size, digest: dg, status: 200, eofWithLast: t[0] == "re"}
 			if t[0] == "rq" {
 				// rq <mode> <size> <digest in the response header, may be empty> <digest asked for> <chunk>*
 				if len(t) < 5 {
@@ -199,6 +208,9 @@ func (*c01b) Gen(rng *RNG, tier string) []Case {
 		}
 		for _, p := range partitions(rng, body, 5) {
 			line += " " + tok(string(p))
+		}
+		if rng.Chance(1, 3) {
+			line = "re" + line[2:] // the last chunk arrives together with io.EOF
 		}
 		cases = append(cases, Case{Lines: []string{line}})
 	}
